@@ -13171,3 +13171,236 @@ func ruleSeekCallbackClones(c *Ctx) {
 	}
 	c.Floor("seek-callback-clones.callbacks handed to a lower store", n, 1)
 }
+
+// ruleWitnessIdentityComplete (C06, C07, C19): the "already verified, take it on trust" shortcuts of AddBlock compare the
+// witness that arrives with the verified one through sameWitness. A witness is both of its scripts: the comparison reads
+// every field of transaction.Witness (a copy that keeps the signature bytes and carries another verification script is
+// another witness - and is stored over the verified one if it is taken for the same).
+func ruleWitnessIdentityComplete(c *Ctx) {
+	fd := c.P.Func("pkg/core", "", "sameWitness")
+	if fd == nil {
+		c.Lost("witness-identity-complete.anchor", "core.sameWitness not found")
+		return
+	}
+	info := fd.Pkg.TypesInfo
+	read := map[string]int{}
+	ast.Inspect(fd.Decl.Body, func(x ast.Node) bool {
+		if se, ok := x.(*ast.SelectorExpr); ok {
+			if v, ok := info.ObjectOf(se.Sel).(*types.Var); ok && v.IsField() && namedTypeIs(info.TypeOf(se.X), "pkg/core/transaction", "Witness") {
+				read[v.Name()]++
+			}
+		}
+		return true
+	})
+	tp := c.P.Pkg("pkg/core/transaction")
+	if tp == nil {
+		c.Lost("witness-identity-complete.type", "package transaction not found")
+		return
+	}
+	tn, _ := tp.Types.Scope().Lookup("Witness").(*types.TypeName)
+	st, _ := tn.Type().Underlying().(*types.Struct)
+	if st == nil {
+		c.Lost("witness-identity-complete.type", "transaction.Witness is not a struct")
+		return
+	}
+	var missing []string
+	for i := 0; i < st.NumFields(); i++ {
+		if read[st.Field(i).Name()] < 2 { // once for each of the two witnesses compared
+			missing = append(missing, st.Field(i).Name())
+		}
+	}
+	c.Floor("witness-identity-complete.fields", st.NumFields(), 2)
+	if len(missing) == 0 {
+		c.OK("witness-identity-complete", c.P.Pos(fd.Decl.Pos()), "sameWitness compares every field of both witnesses")
+	} else {
+		c.Fail("witness-identity-complete", c.P.Pos(fd.Decl.Pos()), fmt.Sprintf("core.sameWitness does not compare %s of the two witnesses: a block whose header (already recorded) or whose pooled transaction keeps the verified signature bytes and carries another verification script is taken for verified, accepted and stored over the verified copy", strings.Join(missing, ", ")))
+	}
+}
+
+// ruleUniquenessAllPairs (C06, C07, C17): "no two signers name the same account" is a statement about all pairs. The
+// decoder's test is a nested loop (or a set); a single loop that compares each signer with a neighbour decides it
+// for sorted input only, and signers are not sorted: [A, B, A] passes, is pooled, put into a block and accepted.
+func ruleUniquenessAllPairs(c *Ctx) {
+	fd := c.P.Func("pkg/core/transaction", "Transaction", "isValid")
+	if fd == nil {
+		c.Lost("uniqueness-all-pairs.anchor", "Transaction.isValid not found")
+		return
+	}
+	info := fd.Pkg.TypesInfo
+	// the return of ErrNonUniqueSigners and the loops around it
+	found := false
+	var stack []ast.Node
+	ast.Inspect(fd.Decl.Body, func(x ast.Node) bool {
+		if x == nil {
+			stack = stack[:len(stack)-1]
+			return true
+		}
+		stack = append(stack, x)
+		rs, ok := x.(*ast.ReturnStmt)
+		if !ok || len(rs.Results) != 1 || !strings.Contains(types.ExprString(rs.Results[0]), "ErrNonUniqueSigners") {
+			return true
+		}
+		found = true
+		loops := 0
+		usesSet := false
+		for _, p := range stack {
+			switch y := p.(type) {
+			case *ast.ForStmt, *ast.RangeStmt:
+				loops++
+			case *ast.IfStmt:
+				// a membership test in a map / a Contains over what was seen so far
+				ast.Inspect(y.Cond, func(z ast.Node) bool {
+					switch w := z.(type) {
+					case *ast.IndexExpr:
+						if _, ok := info.TypeOf(w.X).Underlying().(*types.Map); ok {
+							usesSet = true
+						}
+					case *ast.CallExpr:
+						if s := types.ExprString(w.Fun); strings.HasPrefix(s, "slices.Contains") || strings.HasPrefix(s, "slices.Index") {
+							usesSet = true
+						}
+					}
+					return true
+				})
+				if y.Init != nil {
+					if as, ok := y.Init.(*ast.AssignStmt); ok && len(as.Rhs) == 1 {
+						if ix, ok := as.Rhs[0].(*ast.IndexExpr); ok {
+							if _, ok := info.TypeOf(ix.X).Underlying().(*types.Map); ok {
+								usesSet = true
+							}
+						}
+					}
+				}
+			}
+		}
+		if loops >= 2 || usesSet {
+			c.OK("uniqueness-all-pairs", c.P.Pos(rs.Pos()), "the duplicate-signer test ranges over all pairs (nested loops or a set)")
+		} else {
+			c.Fail("uniqueness-all-pairs", c.P.Pos(rs.Pos()), "Transaction.isValid decides ErrNonUniqueSigners in a single loop without a set: each signer is compared with a neighbour only, signers are not sorted, so [A, B, A] decodes - nothing after the decoder re-checks uniqueness, the transaction is pooled, packed and accepted in a block that every node with the full test refuses to decode")
+		}
+		return true
+	})
+	if !found {
+		c.Lost("uniqueness-all-pairs.shape", "Transaction.isValid no longer returns ErrNonUniqueSigners")
+	}
+}
+
+// ruleProofNodeByOwnHash (C03, C10): VerifyProof rebuilds a store from the proof and walks it from the root hash. What
+// makes the walk a verification is that every element is reachable only under the hash of its own bytes. The key every
+// proof element is stored under derives from a hash call over that element in *all* its definitions - never from a
+// parameter (the requested root in particular: the first element would be "the root" by decree).
+func ruleProofNodeByOwnHash(c *Ctx) {
+	fd := c.P.Func("pkg/core/mpt", "", "VerifyProof")
+	if fd == nil {
+		c.Lost("proof-node-by-own-hash.anchor", "mpt.VerifyProof not found")
+		return
+	}
+	info := fd.Pkg.TypesInfo
+	f := c.P.NewFuncCFG(fd)
+	n := 0
+	isHashOf := func(e ast.Expr, val ast.Expr) bool {
+		call, ok := ast.Unparen(e).(*ast.CallExpr)
+		if !ok || len(call.Args) != 1 {
+			return false
+		}
+		fn := calleeFunc(info, call)
+		if fn == nil || fn.Pkg() == nil || !strings.HasSuffix(fn.Pkg().Path(), "pkg/crypto/hash") {
+			return false
+		}
+		return sameExpr(info, call.Args[0], val)
+	}
+	ast.Inspect(fd.Decl.Body, func(x ast.Node) bool {
+		call, ok := x.(*ast.CallExpr)
+		if !ok || len(call.Args) != 2 {
+			return true
+		}
+		se, ok := ast.Unparen(call.Fun).(*ast.SelectorExpr)
+		if !ok || se.Sel.Name != "Put" {
+			return true
+		}
+		n++
+		val := call.Args[1]
+		// the key: makeStorageKey(h) or h itself
+		keyArg := ast.Unparen(call.Args[0])
+		if kc, ok := keyArg.(*ast.CallExpr); ok && len(kc.Args) == 1 {
+			keyArg = ast.Unparen(kc.Args[0])
+		}
+		good := false
+		why := types.ExprString(keyArg)
+		if isHashOf(keyArg, val) {
+			good = true
+		} else if id, ok := keyArg.(*ast.Ident); ok {
+			if v, ok := info.ObjectOf(id).(*types.Var); ok && !f.params[v] {
+				ds := f.defs[v]
+				good = len(ds) > 0
+				for _, d := range ds {
+					for _, r := range d.rhs {
+						if !isHashOf(r, val) {
+							good = false
+							why = types.ExprString(r)
+						}
+					}
+				}
+			}
+		}
+		if good {
+			c.OK("proof-node-by-own-hash", c.P.Pos(call.Pos()), "every proof element is stored under the hash of its own bytes")
+		} else {
+			c.Fail("proof-node-by-own-hash", c.P.Pos(call.Pos()), fmt.Sprintf("VerifyProof stores a proof element under a key that is not (in every case) the hash of the element's bytes (`%s`): an element placed under the requested root without being hashed makes any self-made extension->leaf sequence verify against any root - a proof for an absent key or another value", why))
+		}
+		return true
+	})
+	c.Floor("proof-node-by-own-hash.stores", n, 1)
+}
+
+// ruleRootComparedBeforeStore (C03): a state root that arrives signed by the state validators may complete the local
+// record of its height with a witness; it may never replace the root the node computed. In AddStateRoot every path to
+// a write of the root record (putStateRoot, the validated-height marker) passes the comparison of the local root with
+// the received one.
+func ruleRootComparedBeforeStore(c *Ctx) {
+	fd := c.P.Func("pkg/core/stateroot", "Module", "AddStateRoot")
+	if fd == nil {
+		c.Lost("root-compared-before-store.anchor", "stateroot.Module.AddStateRoot not found")
+		return
+	}
+	f := c.P.NewFuncCFG(fd)
+	info := fd.Pkg.TypesInfo
+	var cmps, writes []site
+	for _, b := range f.G.Blocks {
+		if !b.Live {
+			continue
+		}
+		for i, nd := range b.Nodes {
+			inspectNoLit(nd, func(x ast.Node) bool {
+				call, ok := x.(*ast.CallExpr)
+				if !ok {
+					return true
+				}
+				se, ok := ast.Unparen(call.Fun).(*ast.SelectorExpr)
+				if ok && se.Sel.Name == "Equals" && len(call.Args) == 1 {
+					// <local>.Root.Equals(<received>.Root)
+					l, ok1 := ast.Unparen(se.X).(*ast.SelectorExpr)
+					r, ok2 := ast.Unparen(call.Args[0]).(*ast.SelectorExpr)
+					if ok1 && ok2 && l.Sel.Name == "Root" && r.Sel.Name == "Root" && !sameExpr(info, l.X, r.X) {
+						cmps = append(cmps, site{b, i, nd, call})
+					}
+				}
+				switch sym := f.calleeSym(call); {
+				case strings.HasSuffix(sym, "stateroot.putStateRoot"), ok && se.Sel.Name == "Put", ok && se.Sel.Name == "Store" && strings.Contains(types.ExprString(se.X), "validatedHeight"):
+					writes = append(writes, site{b, i, nd, call})
+				}
+				return true
+			})
+		}
+	}
+	if len(writes) == 0 {
+		c.Lost("root-compared-before-store.shape", "AddStateRoot no longer writes a state root record")
+		return
+	}
+	ok, path := f.mustBefore(f.Entry(), writes, cmps, nil)
+	if ok && len(cmps) > 0 {
+		c.OK("root-compared-before-store", c.P.Pos(writes[0].call.Pos()), "every path to a write of the root record passes the comparison of the local root with the received one")
+	} else {
+		c.Fail("root-compared-before-store", c.P.Pos(writes[0].call.Pos()), "AddStateRoot can write the root record / the validated height without having compared the received root with the one the node computed ("+strings.Join(path, " -> ")+"): a correctly signed root that differs from the local one replaces it, and getstateroot, getstate, findstates, getproof and historic invocations of that height name a trie that does not hold the storage of that height")
+	}
+}
